@@ -18,7 +18,8 @@ RULE = ("generated call DAGs of 2-7 nodes over 6 memento functions (one in a nam
         "(<=5 memoizable entries; 16 sampled subsets beyond) of sub-calls is left memoized while the rest is "
         "forgotten, then the root is invoked singly or as a batch on filesystem / filesystem+cache stores and "
         "the records of every recomputed call are compared with the closed form; non-trivial = distinct "
-        "(tree, subset) runs in which >=1 sub-call was served from the store and >=1 was recomputed")
+        "(tree, subset) runs in which >=1 sub-call was served from the store and >=1 was recomputed"
+        "; some runs open the named cluster's store read-only")
 ASSUMPTIONS = ["the closed form lists every memento call a body makes, in program order, duplicates included, "
                "whether it returned, raised a memoized exception or a not-to-be-memoized one",
                "explicitly versioned functions are used so that no dependency validation interferes"]
